@@ -147,7 +147,10 @@ type Client struct {
 	cfg *Config
 
 	// conn is the open connection
-	conn *uacp.Conn
+	// conn is written by Dial (also from the reconnect goroutine) and read by
+	// Close: use getConn and setConn.
+	conn   *uacp.Conn
+	connMu sync.Mutex
 
 	// sechan is the open secure channel.
 	atomicSechan atomic.Value // *uasc.SecureChannel
@@ -318,8 +321,8 @@ func (c *Client) monitor(ctx context.Context) {
 			sc.Close()
 			c.setSecureChannel(nil)
 		}
-		if c.conn != nil {
-			c.conn.Close()
+		if conn := c.getConn(); conn != nil {
+			conn.Close()
 		}
 	}()
 
@@ -420,7 +423,9 @@ func (c *Client) monitor(ctx context.Context) {
 						// todo(fs): down.
 						//
 						// https://github.com/gopcua/opcua/pull/470
-						c.conn.Close()
+						if conn := c.getConn(); conn != nil {
+							conn.Close()
+						}
 						if sc := c.SecureChannel(); sc != nil {
 							sc.Close()
 							c.setSecureChannel(nil)
@@ -646,20 +651,20 @@ func (c *Client) Dial(ctx context.Context) error {
 		return errors.Errorf("secure channel already connected")
 	}
 
-	var err error
-	c.conn, err = c.cfg.dialer.Dial(ctx, c.endpointURL)
+	conn, err := c.cfg.dialer.Dial(ctx, c.endpointURL)
 	if err != nil {
 		return err
 	}
+	c.setConn(conn)
 
-	sc, err := uasc.NewSecureChannel(c.endpointURL, c.conn, c.cfg.sechan, c.sechanErr)
+	sc, err := uasc.NewSecureChannel(c.endpointURL, conn, c.cfg.sechan, c.sechanErr)
 	if err != nil {
-		c.conn.Close()
+		conn.Close()
 		return err
 	}
 
 	if err := sc.Open(ctx); err != nil {
-		c.conn.Close()
+		conn.Close()
 		return err
 	}
 	c.setSecureChannel(sc)
@@ -694,11 +699,23 @@ func (c *Client) Close(ctx context.Context) error {
 
 	// close the connection but ignore the error since there isn't
 	// anything we can do about it anyway
-	if c.conn != nil {
-		c.conn.Close()
+	if conn := c.getConn(); conn != nil {
+		conn.Close()
 	}
 
 	return nil
+}
+
+func (c *Client) getConn() *uacp.Conn {
+	c.connMu.Lock()
+	defer c.connMu.Unlock()
+	return c.conn
+}
+
+func (c *Client) setConn(conn *uacp.Conn) {
+	c.connMu.Lock()
+	c.conn = conn
+	c.connMu.Unlock()
 }
 
 // State returns the current connection state.
